@@ -1,15 +1,14 @@
 (* Trusted glue for the policy package (C06): reads one case per line, runs the
    extracted Coq model / specification oracle, prints one canonical result line.
 
-   scn  <item> ; <item> ; ...        end-to-end scenario
-        P d|m|u<uid>|g<gid>|ct|cf|i                          start of a <policy> element
-        R a|d key=<hex> ... max_fds=<int> min_fds=<int>      <allow>/<deny> with its attributes
-        C <uid> <gid,gid,..|-> <at_console 0|1> <unique name hex> <hello serial>
+   scn  N u|g <name hex> <id> ; ... ; T ; <tree items> ; X ; <ops>       end-to-end scenario
+        tree items: see parse_items below (P/R, I, D ... E, nested { })
+        C <uid> <gid,gid,..|-> <at_console 0|1> <user-database groups|~> <hello serial>
         M <conn> <type> <no_reply 0|1> <serial> <reply_serial> <nfds> <path> <iface> <member> <error> <dest> <arg>
           (header fields: hex, "-" empty, "~" absent)
-     -> CFGERR  |  per C/M item: deliveries "conn:tag,conn:tag" (sorted; "." if none) joined by " | "; FAULT<n> ends the run;
-        then " ## " and the same with the optimiser test frozen as in dbus 1.13.18 (known finding F3),
-        then " ## " and the same for the documented semantics (connections keep the unpruned rule list)
+        W ; <tree items> ; X            the configuration files are rewritten (takes effect at the next ReloadConfig)
+     -> CFGERR  |  per op: deliveries "conn:tag,conn:tag" (sorted; "." if none) joined by " | "; FAULT<n> ends the run;
+        " ## " the same with the optimiser test frozen as in 1.13.18, " ## " the documented semantics, " ## D4=<0|1>"
    dec  <item> ; ...                  decision level
         r <s|r|o> <allow> <mtype> <path> <iface> <member> <error> <name> <maxfds> <minfds> <eav> <rr> <log> <bcast 0|1|2> <prefix>
         g <name hex> <conn,conn,..>                          registry entry
@@ -89,6 +88,7 @@ let tag_of (w : what) : string =
   | WReturn None -> "R"
   | WReturn (Some v) -> "R=" ^ string_of_int (int_of_n v)
   | WSignal (mem, arg) -> "S=" ^ string_of_bytes mem ^ "=" ^ string_of_bytes arg
+  | WRefused -> "REFUSED"
 
 let show_deliveries (l : delivery list) : string =
   if l = [] then "." else
@@ -99,37 +99,125 @@ let msg_of ty nr serial rs nfds path iface member error dest sender =
     m_error = opt_hex error; m_dest = opt_hex dest; m_sender = sender; m_reply_serial = n_of_int (int_of_string rs);
     m_nfds = n_of_int (int_of_string nfds); m_serial = n_of_int (int_of_string serial); m_no_reply = bool_of nr }
 
+(* ---- configuration trees.  Items (";"-separated):
+     P <ctx> / R ...                 a <policy> element and its rules
+     I <0|1> missing|broken|circular an <include ignore_missing=...> whose target is absent / unparsable / on the inclusion stack
+     I <0|1> {  ...items...  }       an <include> of a file with these items
+     D  F <conf 0|1> missing|broken|circular | F <conf> { ... } ...  E      an <includedir>, entries in directory order
+   a tree ends at X (top level) or } (nested) *)
+let rec parse_items (items : string list list) : cfg_items * string list list =
+  match items with
+  | [] -> (INil, [])
+  | ["X"] :: rest -> (INil, rest)
+  | ["}"] :: rest -> (INil, rest)
+  | ["P"; c] :: rest ->
+      let rec rules acc = function
+        | ("R" :: v :: kvs) :: r -> rules ((v = "a", List.fold_left set_attr empty_attrs kvs) :: acc) r
+        | r -> (List.rev acc, r) in
+      let (els, rest') = rules [] rest in
+      let (tl, rest'') = parse_items rest' in
+      (ICons (IPolicy (ctx_of c, els), tl), rest'')
+  | ["I"; im; tgt] :: rest ->
+      let (t, rest') = parse_target tgt rest in
+      let (tl, rest'') = parse_items rest' in
+      (ICons (IInclude (bool_of im, t), tl), rest'')
+  | ["D"] :: rest ->
+      let (fs, rest') = parse_dir rest in
+      let (tl, rest'') = parse_items rest' in
+      (ICons (IIncludeDir fs, tl), rest'')
+  | it :: _ -> raise (Bad ("tree item: " ^ String.concat " " it))
+and parse_target (tgt : string) (rest : string list list) : inc_target * string list list =
+  match tgt with
+  | "missing" -> (TMissing, rest) | "broken" -> (TBroken, rest) | "circular" -> (TCircular, rest)
+  | "{" -> let (its, rest') = parse_items rest in (TFile its, rest')
+  | _ -> raise (Bad ("target " ^ tgt))
+and parse_dir (items : string list list) : dir_entries * string list list =
+  match items with
+  | ["E"] :: rest -> (DNil, rest)
+  | ["F"; conf; tgt] :: rest ->
+      let (t, rest') = parse_target tgt rest in
+      let (tl, rest'') = parse_dir rest' in
+      (DCons (bool_of conf, t, tl), rest'')
+  | _ -> raise (Bad "dir entry")
+
+let ns_of s = if s = "~" || s = "-" then [] else List.map (fun x -> n_of_int (int_of_string x)) (String.split_on_char ',' s)
+
 let scn (toks : string list) : string =
   let items = split_items toks in
-  (* configuration *)
-  let cfg = ref [] and cur = ref None in
-  let flush () = (match !cur with Some (c, rs) -> cfg := (c, List.rev rs) :: !cfg | None -> ()); cur := None in
-  let ops = ref [] in
-  List.iter (fun it -> match it with
-    | "P" :: [c] -> flush (); cur := Some (ctx_of c, [])
-    | "R" :: v :: kvs ->
-        let a = List.fold_left set_attr empty_attrs kvs in
-        (match !cur with Some (c, rs) -> cur := Some (c, (v = "a", a) :: rs) | None -> raise (Bad "R outside P"))
-    | ["C"; uid; gids; atc; un; hs] ->
-        let g = if gids = "-" then [] else List.map (fun x -> n_of_int (int_of_string x)) (String.split_on_char ',' gids) in
-        ops := OConnect (n_of_int (int_of_string uid), g, bool_of atc, bytes_of_hex un, n_of_int (int_of_string hs)) :: !ops
-    | ["M"; s; ty; nr; serial; rs; nfds; path; iface; member; error; dest; arg] ->
-        ops := OSend (n_of_int (int_of_string s), msg_of ty nr serial rs nfds path iface member error dest None, bytes_of_hex arg) :: !ops
-    | _ -> raise (Bad (String.concat " " it))) items;
-  flush ();
-  match load_policy policy_empty (List.rev !cfg) with
-  | None -> "CFGERR"
-  | Some p ->
-      let rec go mk b ops acc =
-        match ops with
-        | [] -> List.rev acc
-        | o :: t -> (match step_with mk b o with
-                     | Fault k -> List.rev (("FAULT" ^ string_of_int (int_of_n k)) :: acc)
-                     | Done (b1, out) -> go mk b1 t (show_deliveries out :: acc)) in
-      (* first the daemon's behaviour, then (after " ## ") the documented one (no pruning of the rule list) *)
-      String.concat " | " (go create_client_policy (bus_init p) (List.rev !ops) []) ^ " ## " ^
-      String.concat " | " (go (fun p u g a -> optimize_with f3_condition (client_rules p u g a)) (bus_init p) (List.rev !ops) []) ^ " ## " ^
-      String.concat " | " (go client_rules (bus_init p) (List.rev !ops) [])
+  (* name declarations first: N u|g <name hex> <id> *)
+  let users = ref [] and groups = ref [] in
+  let rec decls = function
+    | ["N"; "u"; nm; id] :: r -> users := (bytes_of_hex nm, n_of_int (int_of_string id)) :: !users; decls r
+    | ["N"; "g"; nm; id] :: r -> groups := (bytes_of_hex nm, n_of_int (int_of_string id)) :: !groups; decls r
+    | r -> r in
+  let items = decls items in
+  let ru nm = List.assoc_opt nm !users and rg nm = List.assoc_opt nm !groups in
+  let (tree, items) = (match items with ["T"] :: r -> parse_items r | _ -> raise (Bad "T expected")) in
+  let d4 = ref false in
+  let note_d4 t = (match denote ru rg true t, denote ru rg false t with
+                   | DFatal a, DFatal b -> if a <> b then d4 := true
+                   | DOk a, DOk b -> if a <> b then d4 := true
+                   | _, _ -> d4 := true) in
+  note_d4 tree;
+  let rec ops_of items acc =
+    match items with
+    | [] -> List.rev acc
+    | ["C"; uid; gids; atc; dbg; hs] :: r ->
+        ops_of r (OConnect (n_of_int (int_of_string uid), ns_of gids, bool_of atc, (if dbg = "~" then None else Some (ns_of dbg)), n_of_int (int_of_string hs)) :: acc)
+    | ["M"; s; ty; nr; serial; rs; nfds; path; iface; member; error; dest; arg] :: r ->
+        ops_of r (OSend (n_of_int (int_of_string s), msg_of ty nr serial rs nfds path iface member error dest None, bytes_of_hex arg) :: acc)
+    | ["W"] :: r -> let (t, r') = parse_items r in note_d4 t; ops_of r' (OWrite t :: acc)
+    | it :: _ -> raise (Bad (String.concat " " it)) in
+  let ops = ops_of items [] in
+  let run_env (e : env) : string =
+    match bus_start e tree with
+    | None -> "CFGERR"
+    | Some b0 ->
+        let rec go b ops acc =
+          match ops with
+          | [] -> List.rev acc
+          | o :: t -> (match step_with e b o with
+                       | Fault k -> List.rev (("FAULT" ^ string_of_int (int_of_n k)) :: acc)
+                       | Done (b1, out) -> go b1 t (show_deliveries out :: acc)) in
+        String.concat " | " (go b0 ops []) in
+  let env_of mk = { e_mk = mk; e_ru = ru; e_rg = rg; e_owner = N0 } in
+  (* the daemon's behaviour; the same with the optimiser test frozen as in dbus 1.13.18 (known finding F3); the documented
+     semantics (connections keep the unpruned rule list); whether the literal reading of ignore_missing differs (D4) *)
+  run_env (env_of create_client_policy) ^ " ## " ^
+  run_env (env_of (fun p u g a -> optimize_with f3_condition (client_rules p u g a))) ^ " ## " ^
+  run_env (env_of client_rules) ^ " ## D4=" ^ b2s !d4
+
+(* cfg  N u|g <name hex> <id> ; ... ; T ; <tree items> ; X ; u <uid> <user-database groups|~> ; ... ; o <name hex> ; ...
+   -> model:  ERR <error name> | OK a=<allow_unix_user per u> o=<check_can_own on the default rules per o>
+      then " ## " the specification: the same from [denote] (textual inclusion), [spec_admit], [spec_can_own]; then " ## D4=<0|1>" *)
+let cfg (toks : string list) : string =
+  let items = split_items toks in
+  let users = ref [] and groups = ref [] in
+  let rec decls = function
+    | ["N"; "u"; nm; id] :: r -> users := (bytes_of_hex nm, n_of_int (int_of_string id)) :: !users; decls r
+    | ["N"; "g"; nm; id] :: r -> groups := (bytes_of_hex nm, n_of_int (int_of_string id)) :: !groups; decls r
+    | r -> r in
+  let items = decls items in
+  let ru nm = List.assoc_opt nm !users and rg nm = List.assoc_opt nm !groups in
+  let (tree, items) = (match items with ["T"] :: r -> parse_items r | _ -> raise (Bad "T expected")) in
+  let us = List.filter_map (function ["u"; uid; dbg] -> Some (n_of_int (int_of_string uid), (if dbg = "~" then None else Some (ns_of dbg))) | _ -> None) items in
+  let os = List.filter_map (function ["o"; nm] -> Some (bytes_of_hex nm) | _ -> None) items in
+  let errname a = if a then "org.freedesktop.DBus.Error.FileNotFound" else "org.freedesktop.DBus.Error.Failed" in
+  let model =
+    match load_config ru rg tree with
+    | LErr a -> "ERR " ^ errname a
+    | LOk p ->
+        "OK a=" ^ String.concat "" (List.map (fun (u, dbg) -> b2s (allow_unix_user p (u = N0) u dbg)) us) ^
+        " o=" ^ String.concat "" (List.map (fun nm -> match check_can_own p.p_default nm with Some b -> b2s b | None -> "F") os) in
+  let spec =
+    match denote ru rg true tree with
+    | DFatal a -> "ERR " ^ errname a
+    | DOk c ->
+        "OK a=" ^ String.concat "" (List.map (fun (u, dbg) -> b2s (spec_admit ru rg c (u = N0) u dbg)) us) ^
+        " o=" ^ String.concat "" (List.map (fun nm -> b2s (spec_can_own (select (cfg_rules ru rg c) CDefault) nm)) os) in
+  let d4 = (match denote ru rg true tree, denote ru rg false tree with
+            | DFatal a, DFatal b -> a <> b | DOk a, DOk b -> a <> b | _, _ -> true) in
+  model ^ " ## " ^ spec ^ " ## D4=" ^ b2s d4
 
 let all_devs = List.init 8 (fun i -> { dv_reply_by_serial = i land 1 <> 0; dv_eavesdrop_lifts_reply = i land 2 <> 0;
                                         dv_send_ignores_eavesdrop = i land 4 <> 0 })
@@ -174,4 +262,5 @@ let dec (toks : string list) : string =
 let () =
   reg "scn" (fun t -> try scn t with Bad s -> "?bad:" ^ s | Failure s -> "?bad:" ^ s);
   reg "dec" (fun t -> try dec t with Bad s -> "?bad:" ^ s | Failure s -> "?bad:" ^ s);
+  reg "cfg" (fun t -> try cfg t with Bad s -> "?bad:" ^ s | Failure s -> "?bad:" ^ s);
   reg "optok" (fun _ -> b2s optimizer_condition_ok)
